@@ -1137,6 +1137,29 @@ func (g *gen) makeStructs() {
 				g.p.Feature("embedded-struct")
 			}
 		}
+		// embedded struct of ANOTHER package: the promoted fields have types of that package
+		if g.opts.Embedded && g.pr(0.35) {
+			for _, sd := range g.subTypes {
+				if sd.Kind != DStruct {
+					continue
+				}
+				taken := map[string]bool{}
+				for _, n := range flatFieldNames(d) {
+					taken[n] = true
+				}
+				clash := taken[sd.Name]
+				for _, n := range flatFieldNames(sd) {
+					if taken[n] {
+						clash = true
+					}
+				}
+				if !clash {
+					d.Fields = append(d.Fields, &Field{Embedded: true, Type: Ref(sd)})
+					g.p.Feature("embedded-struct-of-another-package")
+				}
+				break
+			}
+		}
 		if g.pr(0.3) {
 			d.Doc = []string{"" + d.Name + " is documented.", "gomacro:SQL ADD CHECK (1 = 1)"}
 		}
